@@ -86,6 +86,19 @@ def cases(tier, seed, chaos=0.25):
                     add('$%s(%s)' % (name, ', '.join(args[:i] + ['v'] + args[i + 1:])), {'v': float(ed)}, ('edge-int',))
     for ed in edges:
         add('[1,2,3][%s]' % ed, {}, ('edge-int',)); add('"abc" ~> $substring(%s, %s)' % (ed, ed), {}, ('edge-int',)); add('[1..3][[0, %s]]' % ed, {}, ('edge-int',))
+    # pictures with hundreds of digit positions (the number of mandatory digits exceeds what a double can scale to)
+    for w in (5, 17, 18, 23, 100, 308, 309, 310, 311, 325, 400, 1000):
+        for tail in ['', 'e0', 'e00', '.0', '.0e0', '%', ',000', '#']:
+            for x in ['1', '0', '-1', '12345.678', '1e300', '5e-324', '0.5']:
+                if tier == 'quick' and rng.random() < 0.6:
+                    continue
+                add('$formatNumber(%s, $pad("", %d, "0") & "%s")' % (x, w, tail), {}, ('wide-picture',))
+                if rng.random() < 0.3:
+                    add('$formatNumber(%s, $pad("", %d, "#") & "0%s")' % (x, w, tail), {}, ('wide-picture',))
+                    add('$formatNumber(%s, "0." & $pad("", %d, "0") & "%s")' % (x, w, tail.replace('.0', '')), {}, ('wide-picture',))
+    for w in (50, 64, 65, 100, 1000, 65536, 65537):
+        add('$fromMillis(0, "[Y,%d]")' % w, {}, ('wide-picture',)); add('$fromMillis(0, "[MNn,%d]")' % w, {}, ('wide-picture',)); add('$fromMillis(0, "[Y,*-%d]")' % w, {}, ('wide-picture',))
+        add('$formatBase(%d, 2)' % (2 ** min(w, 1000)), {}, ('wide-picture',)); add('$pad("x", %d) ~> $length()' % w, {}, ('wide-picture',))
     # every built-in at every arity 0..4 with chaotic arguments
     atoms = ['1', '"s"', 'true', 'null', '[]', '[1,2]', '{}', '{"a":1}', '$sum', 'function($x){$x}', 'nothing', '/a/', '-1', '1e300', '""', '[[1]]', '["a","b"]', '$', 'a']
     for (name, rt, ats) in BUILTINS + [('error', 'x', ['s']), ('fromMillis', 's', ['n']), ('toMillis', 'n', ['s']), ('match', 'a', ['s', 'f']), ('encodeUrl', 's', ['s']), ('decodeUrl', 's', ['s'])]:
